@@ -49,12 +49,21 @@ def case_strategy(fmt, big):
     return st.fixed_dictionaries(
         {
             "fmt": st.just(fmt),
-            "model": mod.st_model(big),
-            "vendor": st.sampled_from(V.VENDORS + ["corrupted"]),
+            # only models in the writer's must-load core (construction instead of skipping later)
+            "model": mod.st_model(big).filter(lambda m: _is_core(mod, m)),
+            # every dialect twice as often as the standard encoding
+            "vendor": st.sampled_from([v for v in V.VENDORS if v != "standard"] * 2 + ["corrupted", "corrupted", "standard"]),
             "norm_threshold": st.sampled_from([1e-4, 1e-4, 1e-6, 1e-5, 1e-3, 1e-2]),
             "corrupt_seed": st.integers(0, 2**16),
         }
     )
+
+
+def _is_core(mod, model_spec):
+    try:
+        return bool(mod.core(model_spec, mod.build(model_spec)))
+    except Exception:  # noqa: BLE001
+        return False
 
 
 def corrupted_text(mod, model, seed):
@@ -82,8 +91,15 @@ def check_case(spec, tmpdir):
 
     fmt = spec["fmt"]
     mod = importlib.import_module(f"ivp.oracles.specwriters.{fmt}")
-    model = mod.build(spec["model"])
     vendor = spec["vendor"]
+    if vendor != "standard":
+        # the statement quantifies over *complete* orthonormal orbital sets: with fewer orbitals
+        # than basis functions a deviation in an unused function is undetectable in principle
+        mspec = copy.deepcopy(spec["model"])
+        if isinstance(mspec.get("wf"), dict) and "norb" in mspec["wf"]:
+            mspec["wf"]["norb"] = "full"
+        spec = dict(spec, model=mspec)
+    model = mod.build(spec["model"])
     labels = [f"fmt:{fmt}", f"vendor:{vendor}"]
     if not mod.core(spec["model"], model):
         return [], False, labels + ["noncore_model_skipped"]
